@@ -245,6 +245,24 @@ def occsOf (c : Container N U) : List (Occ N U) :=
   c.campaigns.flatMap campaignOccs ++
   c.triggers.flatMap triggerOccs
 
+/-- the container after `validate()`: every reference object re-assigned from the
+    dictionary, flows keep their uuid, `groups` replaced by `get_group_list()` -/
+def Ref.assign (st : St N U) (k : Kind) (r : Ref N U) : Ref N U :=
+  { r with given := lookup st k r.name }
+
+def Container.validated (st : St N U) (c : Container N U) : Container N U where
+  groups := (groupList st).map (fun p => ⟨p.1, p.2⟩)
+  flows := c.flows.map (fun f => { f with nodes := f.nodes.map (fun nd =>
+    { actions := nd.actions.map (fun a => (a.1, a.2.assign st a.1))
+      cases := nd.cases.map (fun r => r.assign st .group) }) })
+  campaigns := c.campaigns.map (fun cp =>
+    { events := cp.events.map (fun e => { e with flow := e.flow.assign st .flow })
+      group := cp.group.assign st .group })
+  triggers := c.triggers.map (fun t =>
+    { flow := t.flow.assign st .flow
+      groups := t.groups.map (fun r => r.assign st .group)
+      exclude := t.exclude.map (fun r => r.assign st .group) })
+
 /-- what happened to `uuid_dict`s before `validate()`: a direct `_record_uuid` on the
     container's own dictionary (`obj_id` of a top-level sheet row, `add_flow`), or the records
     of the rows of one `insert_as_block`: ContentIndexParser.get_node_group parses the
